@@ -7,6 +7,7 @@ import (
 	"math"
 	"strconv"
 	"strings"
+	"unicode/utf8"
 	"unsafe"
 
 	"github.com/arnodel/golua/lib/base"
@@ -254,7 +255,7 @@ func quote(v rt.Value) (string, bool) {
 	case rt.BoolType:
 		return strconv.FormatBool(v.AsBool()), true
 	case rt.StringType:
-		return strconv.Quote(v.AsString()), true // An approximation
+		return quoteString(v.AsString()), true
 	default:
 		return "", false
 	}
@@ -356,4 +357,48 @@ func (s cString) Format(f fmt.State, verb rune) {
 	} else {
 		io.WriteString(f, strings.Repeat(" ", pad)+str)
 	}
+}
+
+// quoteString returns s as a Lua string literal.  It writes what
+// strconv.Quote writes except where that is not valid Lua: Go escapes a
+// non-printable rune as \u0080 or \U000e0001, which Lua rejects (its form is
+// \u{XXX}); the bytes of such a rune are written as \xXX escapes instead, like
+// bytes that are not valid UTF-8.
+func quoteString(s string) string {
+	const hex = "0123456789abcdef"
+	var b strings.Builder
+	b.WriteByte('"')
+	for i := 0; i < len(s); {
+		c := s[i]
+		n := 1
+		switch {
+		case c == '"' || c == '\\':
+			b.WriteByte('\\')
+			b.WriteByte(c)
+		case c >= 7 && c <= 13:
+			b.WriteByte('\\')
+			b.WriteByte("abtnvfr"[c-7])
+		case c < ' ' || c == 0x7f:
+			b.WriteString(`\x`)
+			b.WriteByte(hex[c>>4])
+			b.WriteByte(hex[c&15])
+		case c < utf8.RuneSelf:
+			b.WriteByte(c)
+		default:
+			var r rune
+			r, n = utf8.DecodeRuneInString(s[i:])
+			if r == utf8.RuneError && n == 1 || !strconv.IsPrint(r) {
+				for _, x := range []byte(s[i : i+n]) {
+					b.WriteString(`\x`)
+					b.WriteByte(hex[x>>4])
+					b.WriteByte(hex[x&15])
+				}
+			} else {
+				b.WriteString(s[i : i+n])
+			}
+		}
+		i += n
+	}
+	b.WriteByte('"')
+	return b.String()
 }
